@@ -41,7 +41,7 @@ PROPS = {
         "cases": {"quick": 2400, "thorough": 48000},
         "rule": "Per case one random definition of any invariant-respecting shape x byte-string "
                 "vectors (noise over the definition's names, junk items, invalid UTF-8, clusters of "
-                "0.4-1.2 KiB (quick) / up to 4 KiB (thorough), sentences with hostile values) x modes {parse, completion revisions "
+                "0.4-1.2 KiB (quick) / up to 2 KiB (thorough) per vector, sentences with hostile values) x modes {parse, completion revisions "
                 "0/1/7/8/9 with/without application name} plus markdown/html/manpage rendering; "
                 "every execution runs under catch_unwind with a fuel budget and is repeated three "
                 "times (again, after unrelated runs, fresh parser) and compared. " + DISTINCT,
